@@ -438,7 +438,7 @@ var rdCoreTokens = []string{"/", "\\", ".", "..", " ", "\t", "\n", "\v", "\f", "
 
 var rdWhitelists = [][]string{nil, {"good.com"}, {".good.com"}, {"*.good.com"}, {"good.com:8443"}, {"good.com:*"}, {"[::1]:*"}, {".good.com", ""}, {"", ":8443"},
 	{"disk.good.com", ".disk.good.com:*"}, // letters that other scripts' capitals fold onto (İ, K, ſ)
-	{tHost, "good.com"}} // (the deployment's own host on the whitelist: absolute URLs to itself are allowed — and stay absolute)
+	{tHost, "good.com"}}                   // (the deployment's own host on the whitelist: absolute URLs to itself are allowed — and stay absolute)
 
 var rdCorpus = []string{
 	"", "/", "/foo", "/foo/bar?x=1&next=/baz#frag", "//evil.com", "/\\evil.com", "/\t/evil.com", "/\n/evil.com", "/\r\n\t/evil.com",
